@@ -371,4 +371,4 @@ def run(acc, tier):
         engine.pmap(acc, shard_generated, extra=(40,))
     else:
         engine.pmap(acc, shard_perms, extra=(8,))
-        engine.pmap(acc, shard_generated, extra=(600,))
+        engine.pmap(acc, shard_generated, extra=(5000,))
